@@ -380,7 +380,8 @@ static void switch_to(Task* n) {
     if (n == t) return;
     G.switches++;
     record_switch(n);
-    t->streak = 0; n->streak = 0;
+    // (streaks are not reset here: a task that is pre-empted again and again by a sleeper's wake-ups must still be demoted after
+    //  its 6000 steps, or a spinning task of high priority starves the one it waits for)
     __atomic_store_n(&t->fut, 0, __ATOMIC_RELAXED);
     G.cur = n;
     __atomic_store_n(&n->fut, 1, __ATOMIC_RELEASE);
